@@ -74,7 +74,7 @@ func (s Schema) cell(table, column string, row, depth int, flex string) (string,
 	n := ((ti+1)*100+ci+1)*1000 + row + 1
 	tag := fmt.Sprintf("%s.%s.%d", table, column, row)
 	aff := Affinity(c.Type)
-	if flex != "" && !isKey && !t.isFKCol(column) && (c.Type == "any" || flex == "all" && !t.Strict) {
+	if flex != "" && !isKey && !t.isFKCol(column) && (c.Type == "ANY" || flex == "all" && !t.Strict) {
 		plain := true
 		for _, u := range t.ColUses(column) {
 			plain = plain && strings.HasPrefix(u, "idx:")
